@@ -49,6 +49,29 @@ type Case struct {
 	Note  string `json:"note,omitempty"`  // generator's description of the pattern (not used by Run)
 }
 
+// the case with every path spelled the way the walkers resolve it (promoted fields through their embedded
+// fields): what the reference and the overlap oracle work on
+func (c *Case) expanded() *Case {
+	x := *c
+	x.Decls = make([]Decl, len(c.Decls))
+	for i, d := range c.Decls {
+		x.Decls[i] = d
+		x.Decls[i].Maps = make([]Mapping, len(d.Maps))
+		for j, m := range d.Maps {
+			x.Decls[i].Maps[j] = Mapping{From: expandPath(d.S, m.From), To: expandPath(c.T, m.To)}
+		}
+	}
+	x.Statics = make([]Static, len(c.Statics))
+	for i, s := range c.Statics {
+		x.Statics[i] = Static{To: expandPath(c.T, s.To), Val: s.Val}
+	}
+	x.Unit = make([]Static, len(c.Unit))
+	for i, s := range c.Unit {
+		x.Unit[i] = Static{To: expandPath(c.T, s.To), Val: s.Val}
+	}
+	return &x
+}
+
 func (d *Decl) chunks() []*V {
 	if len(d.Chunks) == 0 {
 		return []*V{d.Val}
@@ -166,6 +189,9 @@ var srcHandles = map[string]srcHandle{
 	"map[string]map[string]any": srcOf[map[string]map[string]any]{},
 	"*any":                      srcOf[*any]{},
 	"any":                       srcOf[any]{},
+	"Emb":                       srcOf[Emb]{},
+	"*Emb":                      srcOf[*Emb]{},
+	"map[string]Emb":            srcOf[map[string]Emb]{},
 }
 
 var tgtHandles = map[string]tgtHandle{
@@ -189,6 +215,11 @@ var tgtHandles = map[string]tgtHandle{
 	"map[string]map[string]any": tgtOf[map[string]map[string]any]{},
 	"*any":                      tgtOf[*any]{},
 	"map[string]Outer":          tgtOf[map[string]Outer]{},
+	"Emb":                       tgtOf[Emb]{},
+	"*Emb":                      tgtOf[*Emb]{},
+	"map[string]Emb":            tgtOf[map[string]Emb]{},
+	"map[string]*Emb":           tgtOf[map[string]*Emb]{},
+	"EmbU":                      tgtOf[EmbU]{},
 }
 
 // the Go value of a static value: an `any` holding the value of its dynamic type (invalid = nil)
